@@ -16,8 +16,8 @@ package table
 // out are rendered again after each further application and must not have changed.
 
 import (
-	"github.com/osrg/gobgp/v4/api"
 	"fmt"
+	"github.com/osrg/gobgp/v4/api"
 	"net/netip"
 	"regexp"
 	"sort"
@@ -40,19 +40,19 @@ type c10Ext struct {
 }
 
 type c10Route struct {
-	V6       bool        `json:"v6"`
-	Prefix   int         `json:"prefix"`
-	NextHop  int         `json:"nexthop"`
-	Source   int         `json:"source"` // 0 local, 1 iBGP peer, 2.. eBGP peers
-	Path     []c03Seg    `json:"path"`
-	Origin   int         `json:"origin"`
-	MED      int64       `json:"med"`
-	LP       int64       `json:"lp"`
-	Comms    []uint32    `json:"comms"`
-	Exts     []c10Ext    `json:"exts"`
-	Large    [][3]uint32 `json:"large"`
-	Spare    int         `json:"spare"` // spare capacity left behind the attribute slices
-	Rpki     int         `json:"rpki"`  // 0 not-found 1 valid 2 invalid
+	V6      bool        `json:"v6"`
+	Prefix  int         `json:"prefix"`
+	NextHop int         `json:"nexthop"`
+	Source  int         `json:"source"` // 0 local, 1 iBGP peer, 2.. eBGP peers
+	Path    []c03Seg    `json:"path"`
+	Origin  int         `json:"origin"`
+	MED     int64       `json:"med"`
+	LP      int64       `json:"lp"`
+	Comms   []uint32    `json:"comms"`
+	Exts    []c10Ext    `json:"exts"`
+	Large   [][3]uint32 `json:"large"`
+	Spare   int         `json:"spare"` // spare capacity left behind the attribute slices
+	Rpki    int         `json:"rpki"`  // 0 not-found 1 valid 2 invalid
 }
 
 type c10PrefixEntry struct {
@@ -120,12 +120,12 @@ type c10Assign struct {
 }
 
 type c10Case struct {
-	Sets     c10Sets     `json:"sets"`
-	Stmts    []c10Stmt   `json:"stmts"`
-	Policies [][]int     `json:"policies"` // statement indexes
-	Import   c10Assign   `json:"import"`   // global import
-	Export   [2]c10Assign `json:"export"`  // two peers
-	Routes   []c10Route  `json:"routes"`
+	Sets     c10Sets      `json:"sets"`
+	Stmts    []c10Stmt    `json:"stmts"`
+	Policies [][]int      `json:"policies"` // statement indexes
+	Import   c10Assign    `json:"import"`   // global import
+	Export   [2]c10Assign `json:"export"`   // two peers
+	Routes   []c10Route   `json:"routes"`
 }
 
 var (
